@@ -269,6 +269,23 @@ def drop_shape(F, R):
     R.floor('iox2_*_drop functions', n, 50)
 
 
+def consumed_handles(F, R):
+    """A C function that consumes a handle (send, create-from-builder, update, discard ...) frees the handle's storage through its `deleter` on
+    EVERY path to a return, error paths included: the caller has no legal way to free a consumed handle afterwards."""
+    n = 0
+    for f in F.fn_list:
+        if f.crate != 'iceoryx2_ffi_c' or f.kind != 'fn' or re.search(r'::iox2_\w+_drop$', f.id):
+            continue
+        deleter = [s for s in f.sites if s.is_call and s.callee is None and 'deleter' in f.chain(s.node[1]['p'])]
+        fromarg = [d for d in deleter if any(x.startswith('arg:') for x in lib.origins(f, d.node[1]['p']))]
+        if not fromarg:
+            continue
+        n += 1
+        pth = f.exists_path(None, f.ret_sites(), fromarg, from_entry=True)
+        R.ob('MUST-CALL', 'MUST-CALL::%s::consumed-handle-freed-on-every-path' % fnkey(f), pth is None, 'the deleter of the consumed handle (%d call site(s)) lies on every path from entry to a return%s' % (len(fromarg), '' if pth is None else ' -- a path skips it (handle storage leaks): %s' % pth), fromarg[0].where, f)
+    R.floor('handle-consuming C functions', n, 19)
+
+
 def payload_passthrough(F, R):
     n = 0
     for f in F.fn_list:
@@ -285,6 +302,7 @@ def check(F, R, tier):
     match_maps(F, R)
     union_arms(F, R)
     drop_shape(F, R)
+    consumed_handles(F, R)
     payload_passthrough(F, R)
 
 
